@@ -35,6 +35,9 @@ SITES = [
      "(len : Nat)", {"buffer.len()": "len"}, "CryptoCore::decrypt: shorter than header plus tag"),
     ("keyIdInvalid", "src/crypto/core.rs", r"if (key_id [^{};]*?) \{\s*return Err", 1,
      "(keyId : Nat)", {"key_id": "keyId"}, "CryptoCore::decrypt: the key id names no key slot"),
+    ("rotMsgStale", "src/crypto/rotate.rs", r"fn process_message\(&mut self, msg: RotationMessage\) -> Option<RotatedKey> \{\s*if ([^{};]*?) \{\s*return None;", 1,
+     "(msgId selfId : Nat)", {"msg.message_id": "msgId", "self.message_id": "selfId"},
+     "RotationState::process_message: a rotation message that is not newer than the last one handled is ignored"),
 ]
 
 OPS = {"<=": "≤", ">=": "≥", "==": "=", "!=": "≠", "<": "<", ">": ">"}
@@ -67,7 +70,7 @@ def translate_condition(cond, table, site):
 
 
 def generate(repo):
-    out = ["/- GENERATED by /verif/translate/translate.py (guards.py) from comparison guards in src/cloud.rs, src/table.rs, src/crypto/core.rs — do not edit. -/",
+    out = ["/- GENERATED by /verif/translate/translate.py (guards.py) from comparison guards in src/cloud.rs, src/table.rs, src/crypto/core.rs, src/crypto/rotate.rs — do not edit. -/",
            "import VpnCloud.Generated.Consts", "namespace VpnCloud.Generated", ""]
     for name, rel, rx, count, params, table, doc in SITES:
         src = open(os.path.join(repo, rel)).read()
